@@ -68,3 +68,28 @@ Proof.
 Qed.
 
 End Frame.
+
+(* ---- windows: crop_bbox_by_coords / bbox_crop follow the shift descriptor ---- *)
+Section Crop.
+Variables r c s : Z.
+Hypothesis Hr : (0 < r)%Z.
+Hypothesis Hc : (0 < c)%Z.
+Hypothesis Hs : (0 < s)%Z.
+
+Lemma bbox_crop_lat b x1 y1 z1 x2 y2 z2 : (x1 < x2)%Z -> (y1 < y2)%Z -> (z1 < z2)%Z ->
+  exists nb, bbox_crop (norm_box b r c s) x1 y1 z1 x2 y2 z2 r c s = Ok nb /\
+    box_eq (denorm_box nb (y2 - y1) (x2 - x1) (z2 - z1)) (lat_box (lat_shift y1 x1 z1) b).
+Proof.
+  intros Hx Hy Hz. destruct_box b. unfold bbox_crop, crop_bbox_by_coords.
+  rewrite denormalize_bbox_ok by assumption. unfold denorm_box, norm_box. cbn.
+  rewrite normalize_bbox_ok by lia. eexists; split; [reflexivity|].
+  assert (N1 : ~ inject_Z (y2 - y1) == 0) by (apply Zpos_inject_nonzero; lia).
+  assert (N2 : ~ inject_Z (x2 - x1) == 0) by (apply Zpos_inject_nonzero; lia).
+  assert (N3 : ~ inject_Z (z2 - z1) == 0) by (apply Zpos_inject_nonzero; lia).
+  pose proof (Zpos_inject_nonzero r Hr). pose proof (Zpos_inject_nonzero c Hc).
+  pose proof (Zpos_inject_nonzero s Hs).
+  unfold denorm_box, norm_box, box_eq, lat_box, lat_box_lo, lat_box_hi. cbn.
+  repeat split; push_inj; field; repeat split; try assumption;
+  rewrite <- ?inject_Z_sub; assumption.
+Qed.
+End Crop.
